@@ -306,7 +306,7 @@ Lemma resolve_fn_arity ns name nargs local :
   local = qname_local name /\
   exists mn mx, find_func local = Some (mn, mx) /\ mn <= nargs.
 Proof.
-  unfold resolve_fn, expanded_name. intros H.
+  unfold resolve_fn, fn_key, expanded_name. intros H.
   assert (Hcore : forall (l : str) (uri : option str),
     match uri, find_func l with
     | None, Some (mn, mx) =>
@@ -320,7 +320,7 @@ Proof.
     inversion E; subst. split; [reflexivity|]. exists mn, mx. split; [exact Ef|exact Hge]. }
   destruct name as [p l|u]; cbn [qname_local].
   - destruct (ns_lookup ns (Some p)); cbn [bind] in H; [|discriminate]. apply (Hcore l (Some s)). exact H.
-  - cbn [bind] in H. apply (Hcore u (ns_lookup ns None)). exact H.
+  - cbn [bind] in H. apply (Hcore u None). exact H.
 Qed.
 
 Lemma exec_fn_inv local vs n mn mx :
@@ -538,12 +538,12 @@ Proof.
       intros vs [Hvs Hlen]. apply (exec_fn_inv local vs n mn mx); try assumption.
       * rewrite El. exact Hok0.
       * rewrite Hlen. exact Hmn.
-    + exfalso. clear -Er. unfold resolve_fn, expanded_name in Er.
+    + exfalso. clear -Er. unfold resolve_fn, fn_key, expanded_name in Er.
       destruct name; [destruct (ns_lookup (c_ns c) (Some prefix))|]; cbn [bind] in Er; try discriminate;
         repeat match type of Er with
                | context [match ?x with _ => _ end] => destruct x; try discriminate
                end.
-    + exfalso. clear -Er. unfold resolve_fn, expanded_name in Er.
+    + exfalso. clear -Er. unfold resolve_fn, fn_key, expanded_name in Er.
       destruct name; [destruct (ns_lookup (c_ns c) (Some prefix))|]; cbn [bind] in Er; try discriminate;
         repeat match type of Er with
                | context [match ?x with _ => _ end] => destruct x; try discriminate
